@@ -860,7 +860,7 @@ func scenario(e *simcore.Env, tp *simcore.Tape, g engine) {
 		case res.panicMsg != "":
 			// pkg/fs turns a failed mkdir into a panic; the deferred clean-up of TakeFileSnapshot only looks at the returned error
 			e.Probe("reach.failed_snapshot_panicked")
-			if len(left) > 0 {
+			if len(left) > 0 && !tolerated(e, "failed-snapshot", "panic-leaves-partial-snapshot-behind") {
 				files, dirs := listing(snapshotsDir)
 				e.Fail("failed-snapshot", "panic-leaves-partial-snapshot-behind", "EIO on %s made the snapshot request panic (%s) and %d file(s) / %d director(ies) stay below %s", fp, firstLine(res.panicMsg), len(files), len(dirs), snapshotsRel)
 			}
